@@ -1208,7 +1208,10 @@ fn run_request_time(case: &Value) -> Obs {
     use chrono::{Datelike, Timelike};
     let created_at = s(case, "created_at").unwrap_or_default();
     let want: Vec<i64> = arr(case, "ymdhms").iter().filter_map(|x| x.as_i64()).collect();
+    // older pinned cases carry only "year": they are checked for the panic, not for the rendered value
+    let year_only = case.get("ymdhms").is_none();
     match created_at.parse::<chrono::DateTime<chrono::Utc>>() {
+        Ok(dt) if year_only && case.get("year").and_then(|y| y.as_i64()) == Some(dt.year() as i64) => {}
         Ok(dt) if want == vec![dt.year() as i64, dt.month() as i64, dt.day() as i64, dt.hour() as i64, dt.minute() as i64, dt.second() as i64] && dt.nanosecond() == 0 => {}
         _ => return Obs::invalid("request_time: created_at does not parse to the stated UTC fields"),
     }
@@ -1233,6 +1236,7 @@ fn run_request_time(case: &Value) -> Obs {
         }
     });
     match res {
+        Ok(_) if year_only => Obs::new(json!({"panics": false})).tag("request_time:ok"),
         Ok(value) => Obs::new(json!({"panics": false, "value": value})).tag("request_time:ok"),
         Err(_) => Obs::new(json!({"panics": true})).tag("request_time:panic").fail(
             format!("a rule with a request_time variable panics on a request dated {created_at} (DateTime::to_rfc2822)"),
